@@ -280,3 +280,33 @@ def _string_axioms(eng):
 axiom("string-codec", _string_axioms,
       "str.split/join/str(int)/int(str) axioms: splitting '<u>@<t>' at '@' when neither part contains '@'; the level codec "
       "'/'+'/'.join(map(str, l)) is inverted by [int(i) for i in s.split('/') if i] for lists of non-negative ints")
+
+# ---------------------------------------------------------------- generators (C15)
+ghost("NCOPY", "int")          # engine-private: number of copy_context() calls made so far
+GEN_RELY = [("other-contexts-untouched", "forall(lambda c: implies(c != me, CTX[c] == old(CTX[c])), 'int')"),
+            ("tokens-and-context-objects-untouched", "unchanged_old('tok_old') and unchanged_old('tok_used') and unchanged_old('tok_ctx') and unchanged_old('ctx_id_') and unchanged_old('debug')")]
+contract("iface::GenFunc.__call__", returns="role:Gen",
+         notes="calling the wrapped generator function: returns a new generator object without running any of its body; TypeError on a bad argument list",
+         modifies=["#CALLS"],
+         ensures=[("recorded", "CALLS == old(CALLS) + [Ev('mkgen', self, args, kwargs, result)] and fresh(result)")],
+         raises=[{"cls": "TypeError", "ensures": [("recorded", "CALLS == old(CALLS)")]}])
+contract("iface::Gen.send", keep=["debug", "ctx_id_", "tok_old", "tok_used", "tok_ctx"], params=["self", "value"], returns="Any",
+         notes="generator.send(value): runs the body up to its next yield in the *current* context (which it may change: the body may be "
+               "suspended inside an action); returns the yielded value, raises StopIteration(return value) at the end, or any exception",
+         modifies=["*"],
+         ensures=GEN_RELY + [("recorded", "last(CALLS) == Ev('ret', self, 'send', value, result, me)")],
+         raises=[{"cls": "StopIteration", "ensures": GEN_RELY + [("recorded", "last(CALLS) == Ev('stop', self, 'send', value, exc.value, me)")]},
+                 {"cls": "BaseException", "ensures": GEN_RELY + [("recorded", "last(CALLS) == Ev('exc', self, 'send', value, exc, me)")]}])
+contract("iface::Gen.throw", keep=["debug", "ctx_id_", "tok_old", "tok_used", "tok_ctx"], params=["self", "typ", "val", "tb"], defaults={"val": None, "tb": None}, returns="Any",
+         notes="generator.throw(type, value, tb): raises the given exception object at the body's yield, in the current context",
+         modifies=["*"],
+         ensures=GEN_RELY + [("recorded", "last(CALLS) == Ev('ret', self, 'throw', val, result, me)")],
+         raises=[{"cls": "StopIteration", "ensures": GEN_RELY + [("recorded", "last(CALLS) == Ev('stop', self, 'throw', val, exc.value, me)")]},
+                 {"cls": "BaseException", "ensures": GEN_RELY + [("recorded", "last(CALLS) == Ev('exc', self, 'throw', val, exc, me)")]}])
+contract("iface::Driver.__call__", keep=["debug", "ctx_id_", "tok_old", "tok_used", "tok_ctx"], returns="Any",
+         notes="whoever drives the wrapper between two resumptions: arbitrary code in the driver's context; it resumes with send(x) for any x "
+               "(normal outcome) or throw(e)/close() for any exception object (exceptional outcome); it cannot reach the wrapper's private Context object",
+         modifies=["*"],
+         ensures=GEN_RELY,
+         raises=[{"cls": "BaseException", "ensures": GEN_RELY}])
+fields("Context")
